@@ -173,6 +173,7 @@ pub fn run(tier: Tier) -> i32 {
     let (n1, k1, n2, k2) = tier.pick((25usize, 4usize, 11usize, 6usize), (25, 5, 11, 7));
     let mut total = Acc::new();
     let mut alphas = vec![];
+    let rmax = tier.pick(40usize, 300usize);
     let bt = boundary_thresholds();
     for l in langs::ALL {
         let lang = l.facade();
@@ -185,6 +186,8 @@ pub fn run(tier: Tier) -> i32 {
                 one_stream(&ctx, acc, l, &lang, syms)
             }
         }));
+        // long streams: every pattern of <= 2 deep-alphabet symbols repeated r times
+        total.merge(explore::all_repetitions(&a2, 2, 2..=rmax, |syms, acc| one_stream(&ctx, acc, l, &lang, syms)));
         // boundary thresholds on short streams of small numbers
         let c = vocab::cls(l);
         let a3: Vec<String> = vec![c.one, c.unit, c.unit2, c.zero, c.small_ord, c.large_ord, c.tens, c.ordinary, ",".to_string()];
@@ -194,7 +197,7 @@ pub fn run(tier: Tier) -> i32 {
     let cov = json!({
         "exhaustive": true,
         "rule": "every token stream of length <= k over the class alphabet x every threshold of T; result compared with the policy model computed from the threshold-0 result; monotonicity checked over consecutive thresholds; non-trivial = streams with at least one number",
-        "bounds": {"wide_alphabet": n1, "wide_depth": k1, "deep_alphabet": n2, "deep_depth": k2},
+        "bounds": {"wide_alphabet": n1, "wide_depth": k1, "deep_alphabet": n2, "deep_depth": k2, "long_streams": {"alphabet": "deep", "pattern_depth": 2, "repetitions_up_to": rmax}},
         "thresholds": T.iter().map(|t| thr_name(*t)).collect::<Vec<_>>(),
         "boundary_stage": {"alphabet": "one, unit, unit2, zero, small ordinal, large ordinal, tens, ordinary word, comma", "depth": 4, "thresholds": bt.iter().map(|t| if t.is_finite() { format!("{t:e}") } else { thr_name(*t) }).collect::<Vec<_>>()},
         "alphabets": alphas,
